@@ -83,7 +83,8 @@ class _Os:
     def urandom(n):
         if n == 16:
             return RANDOM["token"]          # token length shortened (stated)
-        assert n == 4
+        assert n == 4, "unexpected urandom size"
+        assert RANDOM["masks"], "urandom(4) called more often than expected"
         return RANDOM["masks"].pop(0)
 
     def __getattr__(self, k):
@@ -191,9 +192,10 @@ def run_request(method, cookie, token, chan, settings):
             seen_token = req.headers.get("X-Csrftoken")
         t = env.spawn(h._execute([]))
         env.run_ready()
-        assert t.done() and t.exception() is None
-        assert not env.v.exc_contexts
-    assert conn.finished
+        assert t.done(), "handler task not done"
+        assert t.exception() is None, "handler task raised %r" % (t.exception(),)
+        assert not env.v.exc_contexts, "exception escaped a callback: %r" % (env.v.exc_contexts,)
+    assert conn.finished, "response not finished"
     return h, conn, seen_cookie, seen_token
 
 
@@ -214,13 +216,15 @@ def issue_token(cookie, pver, mask):
 # ------------------------------------------------------------------------------------------ 1
 def pre_issued(mi: int, cver: int, t: int, x1: int, x2: int, pver: int, chan: int, other: bool,
                t2: int) -> bool:
+    if P.SYMMASK == 0 and not (x1 in (0, 170) and x2 in (1, 255)):
+        return False
     return (0 <= mi < P.NM and 0 <= cver <= 2 and 0 <= t <= 255 and 0 <= x1 <= 255 and 0 <= x2 <= 255
             and 1 <= pver <= 2 and 0 <= chan <= 2 and 0 <= t2 <= 255
             and in_shard(cver + 3 * (pver - 1) + 6 * chan))
 
 
-@harness(pre=pre_issued, quick=dict(NM=2, timeout=150, reach_timeout=90),
-         thorough=dict(NM=7, timeout=900, reach_timeout=200),
+@harness(pre=pre_issued, quick=dict(NM=2, SYMMASK=0, timeout=60, reach_timeout=90),
+         thorough=dict(NM=7, SYMMASK=1, timeout=900, reach_timeout=200),
          nshards=dict(quick=18, thorough=18),
          reach=["issued_accepted", "other_session_rejected", "no_cookie_fresh_token_accepted", "safe_method"],
          units=["web.RequestHandler.xsrf_token", "web.RequestHandler._get_raw_xsrf_token",
@@ -256,7 +260,7 @@ def h_issued(mi: int, cver: int, t: int, x1: int, x2: int, pver: int, chan: int,
     # an all-hex-looking raw v1 secret is fine; an empty secret is impossible here (len 2)
     if method in SAFE:
         reached("safe_method")
-        assert h.ran and conn.status == 200
+        assert h.ran and conn.status == 200, "safe method blocked"
     elif good:
         reached("issued_accepted")
         assert h.ran and conn.status == 200, \
@@ -267,8 +271,9 @@ def h_issued(mi: int, cver: int, t: int, x1: int, x2: int, pver: int, chan: int,
 
 
 # ------------------------------------------------------------------------------------------ 2
+P_L_QUICK = 0     # quick: pooled shapes only (a free code point makes every shard time out); thorough: L=3
 CK = ["", "2|00000000|6162|", "6162", "2|0000|6162|1", "3|x", "2|00000000||1"]
-TKN = ["", "2|01010101|a09f|", "6162", "2|00000000|6162|1|", "1|", "ab"]
+TKN = ["", "2|01010101|a09f|", "6162", "2|00000000|6162|1|", "1|", "ab", "2|01010101||5"]
 RND = b"\xfe\xff"
 
 
@@ -279,8 +284,13 @@ def free_choice():
     return ci, chan
 
 
-def pre_free(cfree: str, ti: int, tfree: str) -> bool:
-    ci, chan = free_choice()
+def pre_free(ci: int, chan: int, cfree: str, ti: int, tfree: str) -> bool:
+    if P.nshards > 1:
+        sci, schan = free_choice()
+        if ci != sci or chan != schan:
+            return False
+    elif not (-1 <= ci < len(CK) and 0 <= chan <= 2):
+        return False
     if not (-1 <= ti < len(TKN)):
         return False
     if len(cfree) + len(tfree) > P.L or (len(cfree) > 0 and len(tfree) > 0):
@@ -290,7 +300,7 @@ def pre_free(cfree: str, ti: int, tfree: str) -> bool:
     return True
 
 
-@harness(pre=pre_free, quick=dict(L=1, timeout=120, reach_timeout=90), thorough=dict(L=3, timeout=1400),
+@harness(pre=pre_free, quick=dict(L=P_L_QUICK, timeout=60, reach_timeout=120), thorough=dict(L=3, timeout=1400),
          nshards=dict(quick=21, thorough=21),    # = (len(CK)+1) * 3 channels
          reach=["free_accepted", "free_rejected_403", "malformed_cookie"],
          units=["web.RequestHandler._decode_xsrf_token", "web.RequestHandler.check_xsrf_cookie",
@@ -299,8 +309,7 @@ def pre_free(cfree: str, ti: int, tfree: str) -> bool:
                         "symbolic str (only one of the two has a free part), or absent; cookie pool entry and channel are "
                         "enumerated by sharding; urandom(16) fixed to fe ff here"],
          outside=OUTSIDE)
-def h_free(cfree: str, ti: int, tfree: str):
-    ci, chan = free_choice()
+def h_free(ci: int, chan: int, cfree: str, ti: int, tfree: str):
     rnd = RND
     method = "POST"
     cookie = None if ci < 0 else CK[ci] + cfree
